@@ -3,6 +3,7 @@
    driver's audit file on every check. *)
 From Coq Require Import NArith ZArith List.
 From LV Require Import Model.XorFloat Proofs.XorFloat Model.IntResponse Proofs.IntResponse Model.EventBuf Proofs.EventBuf.
+From LV Require Import Model.Routing Model.EventWire Proofs.EventWire.
 Import ListNotations.
 Open Scope N_scope.
 
@@ -123,3 +124,45 @@ Example C16_xor_example :
   exists bits, XorFloat.encode all_ones 100 fs = Some bits /\ XorFloat.decode bits = Some fs /\
                Nat.ltb 128 (length bits) = true.
 Proof. eexists. split; [vm_compute; reflexivity|]. split; vm_compute; reflexivity. Qed.
+
+(* ---------- the binary event-buffer message (ingestion request; also the payload of WAL segments),
+   at capnp FIELD level ---------- *)
+
+(* every representation of a column -- empty, dense / sparse floats, dense / sparse integers, strings,
+   mixed cells -- goes through the message unchanged *)
+Theorem C16_event_wire_column :
+  forall d : coldata, de_data (ser_data d) = d.
+Proof. exact de_ser_data. Qed.
+
+(* the message is lossless: a buffer whose tables have distinct names and whose columns have distinct
+   names within a table (they are hash maps) comes out of the reader exactly as it went into the writer,
+   table by table, with its row count, column by column, value by value *)
+Theorem C16_event_wire_roundtrip :
+  forall e : event_buf,
+    NoDup (map fst e) -> cols_distinct e -> EventWire.deserialize (EventWire.serialize e) = e.
+Proof. exact event_wire_roundtrip. Qed.
+
+(* messages not produced by the writer: a sparse column whose index and value lists differ in length
+   is cut to the shorter; a repeated table / column name denotes the later entry and leaves every other
+   name alone *)
+Theorem C16_event_wire_sparse_truncates :
+  forall i v, de_data (MSparseF64 i v) = CSparse (combine i v) /\
+              length (combine i v) = Nat.min (length i) (length v).
+Proof. exact de_sparse_truncates. Qed.
+
+Theorem C16_event_wire_later_entry_wins :
+  forall (B : Type) k (v : B) l, alookup k (aput k v l) = Some v.
+Proof. intros B k v l. apply aput_lookup. Qed.
+
+Theorem C16_event_wire_other_entries_kept :
+  forall (B : Type) k k' (v : B) l, k <> k' -> alookup k' (aput k v l) = alookup k' l.
+Proof. intros B k k' v l Hne. apply aput_lookup_other. exact Hne. Qed.
+
+Example C16_event_wire_example :
+  let t := {| tb_len := 3;
+              tb_cols := [([97], CSparse [(0%nat, 5); (2%nat, 7)]); ([98], CString [[120]; []; [121]]);
+                          ([99], CMixed [VInt (-1)%Z; VNull; VStr [122]])] |} in
+  EventWire.deserialize (EventWire.serialize [([116], t); ([117], {| tb_len := 0; tb_cols := [] |})]) =
+    [([116], t); ([117], {| tb_len := 0; tb_cols := [] |})] /\
+  de_data (MSparseI64 [1%nat; 2%nat; 3%nat] [10%Z]) = CSparseI64 [(1%nat, 10%Z)].
+Proof. vm_compute. split; reflexivity. Qed.
